@@ -155,10 +155,21 @@ def r_heads(prog, tier):
         rootf = [n for n in gc.eval_nodes() if n.kind == 'stmt' and unparse(n.ast) == "%s.data['head'] = False" % tree
                  and not n.loops and gc.postdominates(n.id, gc.entry)]
         loops = [n for n in gc.eval_nodes() if n.kind == 'iter' and unparse(n.ast.iter) == 'trees.preorder(%s)' % tree]
-        obs.append(Ob('R-HEADS/MARK', g.fq, 'the root is marked as non-head', True if (rootf and loops
-                      and gc.dominates(rootf[0].id, loops[0].id)) else (False if not any(
-                          unparse(n.ast).startswith("%s.data['head']" % tree) for n in gc.eval_nodes() if n.kind == 'stmt') else None),
-                      '`%s.data[\'head\'] = False` before the traversal' % tree if rootf else 'root not unmarked',
+        v_root = True if (rootf and loops and gc.dominates(rootf[0].id, loops[0].id)) else (False if not any(
+            unparse(n.ast).startswith("%s.data['head']" % tree) for n in gc.eval_nodes() if n.kind == 'stmt') else None)
+        w_root = '`%s.data[\'head\'] = False` before the traversal' % tree if rootf else 'root not unmarked'
+        if v_root is None:
+            # positive evidence: a normal return is reachable from the entry without passing any store to the root's flag
+            sets = frozenset(n.id for n in gc.eval_nodes() if n.kind == 'stmt' and unparse(n.ast).startswith("%s.data['head'] =" % tree))
+            rets = [p_ for p_ in gc.pred[gc.exit] if gc.nodes[p_].kind == 'stmt' and isinstance(gc.nodes[p_].ast, ast.Return)]
+            reach = gc.reach(gc.entry, avoid=sets)
+            skipping = [p_ for p_ in rets if p_ in reach]
+            if sets and skipping and not prog.opaque_calls(g, [tree]):
+                v_root = False
+                w_root = '`%s` (line %d) is reached without the root\'s head flag ever being written: a one-token tree keeps a ' \
+                         'stale flag, or has none and cannot be written with head marks' % (
+                             unparse(gc.nodes[skipping[0]].ast), gc.nodes[skipping[0]].lineno)
+        obs.append(Ob('R-HEADS/MARK', g.fq, 'the root is marked as non-head', v_root, w_root,
                       construct='mark-root', line=g.node.lineno, nontrivial=False))
         if not loops:
             raise Unrecognised('%s: traversal not found' % g.fq)
@@ -289,8 +300,16 @@ def r_heads(prog, tier):
     if ok is None and E and idxdefs and recognised and ed_ok and len(idxdefs) >= 2:
         ok = False      # every case is an expression over the edge list this rule understands, but they are not the heuristic
     shown = dict((k, sorted(sorted(x) for x in v)) for k, v in idxdefs.items())
+    if use is not None and isinstance(use.ast.targets[0].value.value.slice, ast.Name):
+        from ..values import carried_over
+        iv = use.ast.targets[0].value.value.slice.id
+        co = carried_over(g, iv, use.id)
+        if co:
+            ok = False
+            shown = 'the index chosen for one constituent (`%s`, line %d) can still be in `%s` when the next constituent ' \
+                    'is marked: the default is not set per constituent' % (unparse(gc.nodes[co[0]].ast)[:50], gc.nodes[co[0]].lineno, iv)
     obs.append(Ob('R-HEADS/NEGRA', g.fq, 'NeGra heuristic: leftmost HD, else rightmost NK, else leftmost child', ok,
-                  'index cases and their guards match' if ok else 'index cases %s' % shown,
+                  'index cases and their guards match' if ok else ('index cases %s' % shown if isinstance(shown, dict) else shown),
                   construct='negra-idx', line=g.node.lineno))
     # rule based: presets and rejection
     g = prog.func('transform', 'mark_heads_by_rules')
